@@ -359,13 +359,16 @@ pub struct Model {
     pub code: Option<(u64, Vec<u8>)>,
     /// symbol files by module name (bytes: may be invalid UTF-8)
     pub syms: Vec<(String, Vec<u8>)>,
+    /// amd64 only: every general-purpose register of the exception context other than rsp / rip holds
+    /// this value (a register file crowded around one address)
+    pub gpr_fill: Option<u64>,
 }
 pub const HEADER_TIME: u64 = 1262805309; // fixed by minidump-synth
 pub const STACK_BASE: u64 = 0x7000_0000;
 
 impl Model {
     pub fn new(cpu: CpuK, platform_id: u32) -> Model {
-        Model { cpu, platform_id, threads: vec![], thread_names: vec![], exc: None, bp: None, modules: vec![], unloaded: vec![], maps: MapsM::None, misc: None, status: None, lsb: None, code: None, syms: vec![] }
+        Model { cpu, platform_id, threads: vec![], thread_names: vec![], exc: None, bp: None, modules: vec![], unloaded: vec![], maps: MapsM::None, misc: None, status: None, lsb: None, code: None, syms: vec![], gpr_fill: None }
     }
     pub fn os(&self) -> OsK {
         os_of(self.platform_id)
@@ -422,7 +425,16 @@ pub fn build(m: &Model) -> Vec<u8> {
     // takes a constant location)
     let (ctx_size, ctx_rva) = match &m.exc {
         Some(x) if x.ctx == 1 => {
-            let b = m.cpu.context(x.ctx_ip, x.ctx_sp).unwrap_or_else(|| vec![0xAB; 64]);
+            let b = match (m.cpu, m.gpr_fill) {
+                (CpuK::Amd64, Some(v)) => zeroed_ctx::<md::CONTEXT_AMD64>(|c| {
+                    c.context_flags = 0x10001f;
+                    (c.rax, c.rcx, c.rdx, c.rbx, c.rbp, c.rsi, c.rdi) = (v, v, v, v, v, v, v);
+                    (c.r8, c.r9, c.r10, c.r11, c.r12, c.r13, c.r14, c.r15) = (v, v, v, v, v, v, v, v);
+                    c.rsp = x.ctx_sp;
+                    c.rip = x.ctx_ip;
+                }),
+                _ => m.cpu.context(x.ctx_ip, x.ctx_sp).unwrap_or_else(|| vec![0xAB; 64]),
+            };
             let n = b.len() as u32;
             d = d.add(bytes_section(&b));
             (n, 32u32)
